@@ -426,6 +426,12 @@ func normalise(repo, goarch string, overlay map[string][]byte) (map[string][]byt
 	if len(rep.Inlined) == 0 && len(rep.Deleted) == 0 {
 		return overlay, rep, nil
 	}
+	if dir := os.Getenv("SACHECK_DUMP_DIR"); dir != "" {
+		// debugging aid: the sources the rules actually see
+		for fn, c := range cur {
+			_ = os.WriteFile(filepath.Join(dir, filepath.Base(fn)), c, 0o644)
+		}
+	}
 	return cur, rep, nil
 }
 
